@@ -296,41 +296,67 @@ def run_apollo3(case):
             def ident(it):
                 return tuple(sorted((k, str(v)) for k, v in it.items() if k != 'results'))
             orig = {ident(it): it['results'] for it in Reader(src).to_browser().content}
-            items = list(Reader(path).to_browser().content)
-            picker = Picker(path)
-            for it in items:
-                out['n'] += 1
-                key = ident(it)
-                dset = it['results']
-                old = orig.get(key)
-                if not all(k in it for k in ('output', 'zone', 'result_name')) or 'LOCAL' in str(it.get('result_name')).upper():
-                    pass          # user / kinetics values: derived quantities, no metamorphic ground truth
-                elif old is None:
-                    out['metamorphic'].append([list(map(str, key)), 'absent from the original'])
-                elif np.asarray(old.value).dtype.kind == 'f':
-                    exp = np.asarray(old.value) * 2.0 + 1.0
-                    same = np.array_equal(np.asarray(dset.value), exp, equal_nan=True) or np.array_equal(np.asarray(dset.value), np.asarray(old.value), equal_nan=True)
+
+            def reader_vs_picker(hpath, reference):
+                items = list(Reader(hpath).to_browser().content)
+                picker = Picker(hpath)
+                for it in items:
+                    out['n'] += 1
+                    key = ident(it)
+                    dset = it['results']
+                    old = reference.get(key) if reference is not None else None
+                    if reference is None or not all(k in it for k in ('output', 'zone', 'result_name')) or 'LOCAL' in str(it.get('result_name')).upper():
+                        pass          # user / kinetics values: derived quantities, no metamorphic ground truth
+                    elif old is None:
+                        out['metamorphic'].append([list(map(str, key)), 'absent from the original'])
+                    elif np.asarray(old.value).dtype.kind == 'f':
+                        exp = np.asarray(old.value) * 2.0 + 1.0
+                        same = (np.array_equal(np.asarray(dset.value), exp, equal_nan=True)
+                                or np.array_equal(np.asarray(dset.value), np.asarray(old.value), equal_nan=True))
+                        if not same:
+                            out['metamorphic'].append([list(map(str, key)), 'value is neither the stored array nor its image'])
+                    if not all(k in it for k in ('output', 'zone', 'result_name')):
+                        continue
+                    try:
+                        kwargs = {'output': it['output'], 'zone': it['zone'], 'result_name': it['result_name']}
+                        if it.get('isotope') is not None:
+                            kwargs['isotope'] = it['isotope']
+                        picked = picker.pick_standard_value(**kwargs)
+                    except Exception:  # pylint: disable=broad-except
+                        continue          # the Reader lower-cases result names: not every item can be asked from the Picker
+                    if picked is None:
+                        continue
+                    out['picked'] += 1
+                    same = (np.shape(picked.value) == np.shape(dset.value)
+                            and np.array_equal(np.asarray(picked.value), np.asarray(dset.value), equal_nan=True)
+                            and list(picked.bins) == list(dset.bins)
+                            and all(np.array_equal(np.asarray(picked.bins[k]), np.asarray(dset.bins[k])) for k in dset.bins))
                     if not same:
-                        out['metamorphic'].append([list(map(str, key)), 'value is neither the stored array nor its image'])
-                if not all(k in it for k in ('output', 'zone', 'result_name')):
-                    continue
-                try:
-                    kwargs = {'output': it['output'], 'zone': it['zone'], 'result_name': it['result_name']}
-                    if it.get('isotope') is not None:
-                        kwargs['isotope'] = it['isotope']
-                    picked = picker.pick_standard_value(**kwargs)
-                except Exception:  # pylint: disable=broad-except
-                    continue
-                if picked is None:
-                    continue
-                out['picked'] += 1
-                same = (np.shape(picked.value) == np.shape(dset.value)
-                        and np.array_equal(np.asarray(picked.value), np.asarray(dset.value), equal_nan=True)
-                        and list(picked.bins) == list(dset.bins)
-                        and all(np.array_equal(np.asarray(picked.bins[k]), np.asarray(dset.bins[k])) for k in dset.bins))
-                if not same:
-                    out['reader_vs_picker'].append(list(map(str, key)))
-            picker.close()
+                        out['reader_vs_picker'].append(list(map(str, key)))
+                picker.close()
+            reader_vs_picker(path, orig)
+            # a second file with the same outputs and zones but the isotopes stored in another order, read by the same process
+            path2 = os.path.join(tmp, 'reordered.hdf')
+            shutil.copy(path, path2)
+            changed = [0]
+            with h5py.File(path2, 'r+') as hfile:
+                def reorder(name, obj):
+                    if (isinstance(obj, h5py.Group) and isinstance(obj.get('ISOTOPE'), h5py.Dataset) and isinstance(obj.get('CONCEN'), h5py.Dataset)
+                            and obj['ISOTOPE'].shape[0] > 1 and obj['ISOTOPE'].shape == obj['CONCEN'].shape):
+                        names = obj['ISOTOPE'][...][::-1].copy()
+                        conc = obj['CONCEN'][...][::-1].copy()
+                        del obj['ISOTOPE']
+                        del obj['CONCEN']
+                        obj.create_dataset('ISOTOPE', data=names)
+                        obj.create_dataset('CONCEN', data=conc)
+                        changed[0] += 1
+                groups = []
+                hfile.visititems(lambda name, obj: groups.append(name) if isinstance(obj, h5py.Group) else None)
+                for name in groups:
+                    reorder(name, hfile[name])
+            if changed[0]:
+                out['reordered_zones'] = changed[0]
+                reader_vs_picker(path2, None)
         out['outcome'] = 'ok'
     except Exception as exc:  # pylint: disable=broad-except
         out['outcome'] = f'{type(exc).__name__}: {exc}'[:200]
